@@ -238,6 +238,9 @@ func genC06(t *testing.T) {
 		c.Script = randInterleave(r, seqs, []int{0, 0, 25, 70}[r.IntN(4)])
 		run(c)
 	}
+	if common.Batch == 0 {
+		typedNilFailures("C06")
+	}
 }
 
 func isSource(stage string) bool {
